@@ -24,6 +24,7 @@ type propCfg struct {
 	variantsQ    []string
 	variantsT    []string
 	env          []string
+	extra        []*propCfg // further engines serving the same property (run with the same budget)
 }
 
 func (p *propCfg) variants(tier string) []string {
@@ -121,6 +122,19 @@ func init() {
 		"fd-number-reused", "canary-grabbed")
 }
 
+func init() {
+	sig := " distinct = distinct schedule signatures"
+	props["C13"] = &propCfg{engine: "vqueue", instrumented: true, level: "exploration", quickS: 15, thoroughS: 300,
+		rule:        "2..4 tasks x 1..5 operations (Enqueue of unique tasks, Dequeue, Length, IsEmpty) on the real instrumented pkg/queue with a scheduling point before every atomic load/CAS/add under random, PCT and starvation schedules; invoke/return stamped with a global event counter; porcupine checks each history against a sequential FIFO model; Length/IsEmpty checked when no operation overlaps; drain => each task exactly once; non-trivial = at least 3 operations and 3 contended decisions;" + sig,
+		components:  map[string][]string{"real": {"pkg/queue (lock-free queue, task pool)"}, "stub": {"goroutine scheduling (sim/vsched)", "sync/atomic call sites are scheduling points (sim/vatomic)", "sync.Pool (deterministic LIFO)"}},
+		assumptions: []string{"preemption only between atomic operations (sequentially consistent atomics); histories of at most 18 operations", "porcupine Unknown (timeout) is counted inconclusive, never reported"},
+		variantsQ:   []string{"default"}, variantsT: []string{"default"}}
+	// C03 has two engines: the whole-engine level (vsim) registered above and
+	// the poller level, run as a second stage by the same check.
+	props["C03"].extra = []*propCfg{{engine: "vpoll", instrumented: true,
+		variantsQ: []string{"default+small", "poll_opt"}, variantsT: []string{"default", "default+small", "poll_opt", "poll_opt+small"}}}
+}
+
 var selftests = map[string]func(tier string) int{}
 
 // buildEngine compiles the engine's test binary against the current working
@@ -143,7 +157,7 @@ func buildEngine(pc *propCfg, variants []string, scratch string) ([]build, error
 			}
 			tags = strings.TrimSpace(tags + " verif")
 		}
-		mod := filepath.Join(scratch, "go-"+v+".mod")
+		mod := filepath.Join(scratch, "go-"+pc.engine+"-"+v+".mod")
 		gm, err := os.ReadFile(filepath.Join(verifDir, "go.mod"))
 		if err != nil {
 			return nil, err
@@ -153,7 +167,7 @@ func buildEngine(pc *propCfg, variants []string, scratch string) ([]build, error
 			return nil, err
 		}
 		gs, _ := os.ReadFile(filepath.Join(verifDir, "go.sum"))
-		_ = os.WriteFile(filepath.Join(scratch, "go-"+v+".sum"), gs, 0o644)
+		_ = os.WriteFile(filepath.Join(scratch, "go-"+pc.engine+"-"+v+".sum"), gs, 0o644)
 		bin := filepath.Join(scratch, pc.engine+"-"+v+".test")
 		args := []string{"test", "-c", "-modfile=" + mod, "-o", bin}
 		if tags != "" {
@@ -183,7 +197,7 @@ func buildEngine(pc *propCfg, variants []string, scratch string) ([]build, error
 				return nil, fmt.Errorf("go %s: %v\n%s", strings.Join(args, " "), err, b)
 			}
 		}
-		out = append(out, build{variant: v, bin: bin})
+		out = append(out, build{engine: pc.engine, variant: v, bin: bin})
 	}
 	return out, nil
 }
@@ -194,6 +208,9 @@ func buildEngine(pc *propCfg, variants []string, scratch string) ([]build, error
 // flavour).
 func instrument(scratch, variant string) (string, error) {
 	dst := filepath.Join(scratch, "src-"+variant)
+	if st, err := os.Stat(dst); err == nil && st.IsDir() {
+		return dst, nil // already instrumented for another engine of this check
+	}
 	var tags []string
 	small := false
 	for _, t := range strings.Split(variant, "+") {
